@@ -650,6 +650,10 @@ def r_group_helper(ctx: Ctx, rule: str):
         rep.floor(rule, "call of _cancel_group_meta_tasks", len(ctx.distinct_sites(meta)), 1)
         members = [c for c in cancel_nodes(ctx, f, "member")]
         rep.floor(rule, "member cancel steps", len(ctx.distinct_sites(members)), 1)
+        # a group that has not started a task yet (empty register) still owns a live spawner: no way through the helper skips its cancellation
+        rep.ob(rule, "the group's spawners are cancelled on every way through the helper, whatever the register holds (an empty register is the "
+                     "normal state of a group whose spawner is still waiting for room)", dominated_by_completion(g, meta, g.exit), func=f,
+               construct="normal exit reached without _cancel_group_meta_tasks")
         for c in ctx.distinct_sites(members):
             rep.ob(rule, "spawners are cancelled before the first member task (no new member can start in between)", dominated_by_completion(g, meta, c), node=c)
             # the receiver, followed through locals and through the parameters of helpers spliced into this function
